@@ -189,8 +189,13 @@ C05_exact(step) ==
 C05_new(step) ==
   LET h == step.op.h
       n == Len(step.pre.con[h].recs)
+      \* a typed convenience factory (revision, collection ...) also supplies the PROV type it asserts
+      asserted == IF step.op.via \in DOMAIN SubFactoryType
+                  THEN << <<NameQN("prov", ProvNS, <<"type">>),
+                            [t |-> "name", n |-> NameQN("prov", ProvNS, <<SubFactoryType[step.op.via]>>)]>> >>
+                  ELSE <<>>
       pairs == [i \in 1..Len(step.op.formals) |-> <<NameQN("prov", ProvNS, <<step.op.formals[i][1]>>), step.op.formals[i][2]>>]
-               \o step.op.extras
+               \o step.op.extras \o asserted
       sup == Supplied(step, h, pairs)
       complete == Cardinality(sup) = Len(pairs) \/ Len(pairs) = 0
       grown(S, T) == \A x \in S : \E y \in T : y.a = x.a /\ PEq(y.v, x.v)
